@@ -2846,7 +2846,11 @@ class FuncParseDate(ValueFunc):
                 idx = fmt.find(part)
                 if idx == -1:
                     continue
-                vals[part] = int(s[idx:idx+len(part)])
+                try:
+                    vals[part] = int(s[idx:idx+len(part)])
+                except ValueError:
+                    s = None  # not a number: the string does not match fmt
+                    break
                 s = s[0:idx] + s[idx+len(part):]
                 fmt = fmt[0:idx] + fmt[idx+len(part):]
                 if s == "":
